@@ -523,6 +523,7 @@ def run(ctx):
     split_rule(ctx)
     ctx.attempt(trace_selector_rule, ctx)
     ctx.attempt(stress_parts_rule, ctx)
+    ctx.attempt(energy_parts_rule, ctx)
     ctx.attempt(history_reset_callers_rule, ctx)
     ctx.attempt(degenerate_projector_rule, ctx)
     ctx.attempt(degenerate_derivative_rule, ctx)
@@ -628,6 +629,55 @@ def stress_parts_rule(ctx):
             r.fail(f.qualname, f"parts:D{D}", f.file, f.lineno, "PhaseField.Calc_Sigma_e_pg", f"D = {D}, (Ne, nPg) = ({Ne}, {nPg}): {bad}: for the splits whose c+- are not symmetric the two stress parts are wrong although their sum is not")
         else:
             r.ok(f"D = {D}: Sigma+- == c+- : eps")
+
+
+def energy_parts_rule(ctx):
+    """R17.23: 'the positive and negative parts ... add up to the undamaged stress and energy': Calc_psi_e_pg is interpreted
+    with stress parts handed in as exact numbers whose positive part does negative work at some points (the cross-term
+    splits AnisotStrain / _PM / _MP in compression-dominated states): psi+- == 1/2 eps . Sigma+- point by point - no
+    clamp, no absolute value, no threshold - hence psi+ + psi- == 1/2 eps . (Sigma+ + Sigma-)."""
+    from ..femodel import Model, FeV
+
+    repo = ctx.repo
+    ci = repo.cls(PFM)
+    f = ci.methods["Calc_psi_e_pg"]
+    r = ctx.rule("R17.23", "Calc_psi_e_pg: psi+ == 1/2 eps . Sigma+ and psi- == 1/2 eps . Sigma- point by point on exact states where one part does negative work and where both are tiny (1e-14): the parts add up to the undamaged energy", min_instances=2)
+    for D, Ne, nPg in ((3, 2, 2), (6, 1, 3)):
+        r.instance(fn=f.qualname)
+        M = Model(repo)
+        n = Ne * nPg * D
+        ev = [Q((-1) ** k * (k % 5 + 1), 7) for k in range(n)]
+        sp = [Q((-1) ** (k // 2) * (k % 3 + 2), 3) for k in range(n)]
+        sm = [Q((-1) ** (k // 3 + 1) * (k % 4 + 1), 5) for k in range(n)]
+        # last point: energies of magnitude 1e-14 and 1e-15 (a relative statement: nothing is rounded to zero)
+        for i in range(D):
+            ev[n - D + i] = Q(1, 10 ** 7) * (i + 1)
+            sp[n - D + i] = Q(1, 10 ** 7)
+            sm[n - D + i] = -Q(1, 10 ** 8)
+        eps, sP, sM = (FeV((Ne, nPg, D), list(v)) for v in (ev, sp, sm))
+        obj = XObj(ci, {"Calc_Sigma_e_pg": lambda E, *a, **k: (sP, sM)})
+        M.user_call_hook = lambda fn, args, kwargs: Sink() if getattr(fn, "name", "") == "Tic" else NotImplemented
+        try:
+            out = M.I.call_function(f, [eps], self_obj=obj)
+            got = [XArray.from_nested(o) for o in out]
+        except XRaise as e:
+            r.fail(f.qualname, f"energy-parts:D{D}", f.file, f.lineno, "PhaseField.Calc_psi_e_pg", f"D = {D}: raises {e}")
+            continue
+        bad = None
+        for name, g, sv in (("psi+", got[0], sp), ("psi-", got[1], sm)):
+            if g.shape != (Ne, nPg):
+                bad = f"{name} has shape {g.shape}, not (Ne, nPg)"
+                break
+            for e in range(Ne):
+                for p in range(nPg):
+                    o = (e * nPg + p) * D
+                    want = sum(ev[o + i] * sv[o + i] for i in range(D)) / 2
+                    if bad is None and g[e, p] != want:
+                        bad = f"{name} at (e={e}, p={p}) is {g[e, p]}, 1/2 eps . Sigma is {want}" + (" (a negative energy part was clamped: psi+ + psi- is no longer the undamaged energy for the cross-term splits)" if want < 0 and g[e, p] >= 0 else "")
+        if bad:
+            r.fail(f.qualname, f"energy-parts:D{D}", f.file, f.lineno, "PhaseField.Calc_psi_e_pg", f"D = {D}, (Ne, nPg) = ({Ne}, {nPg}): {bad}")
+        else:
+            r.ok(f"D = {D}: psi+- == 1/2 eps . Sigma+-")
 
 
 def history_reset_callers_rule(ctx):
@@ -1088,7 +1138,7 @@ def history_protocol_rule(ctx, rid="R17.19"):
     ps = repo.cls(PFS)
     simu = repo.cls("EasyFEA.Simulations._simu._Simu")
     mesh_ci = repo.cls("EasyFEA.FEM._mesh.Mesh")
-    r = ctx.rule(rid, "history protocol interpreted: a trial evaluation returns max(psi, committed history) and commits nothing, Save_Iter commits the last evaluation, the committed field never decreases (also when the mesh is moved between the solve and the commit), Set_Iter(i, resetAll=True) rebuilds the history of iteration i", min_instances=4)
+    r = ctx.rule(rid, "history protocol interpreted: a trial evaluation returns max(psi, committed history) and commits nothing, Save_Iter commits the last evaluation, the committed field never decreases (also when the mesh is moved between the solve and the commit), Set_Iter(i, resetAll=True) rebuilds the history of iteration i, Set_Iter without resetAll leaves it alone", min_instances=4)
     fCalc = repo.lookup_method(ps, ps.mangle("__Calc_psiPlus_e_pg"))
     fSave, fSet, fUpd = ps.methods["Save_Iter"], ps.methods["Set_Iter"], repo.lookup_method(ps, "_Update")
     V = lambda a, b: XArray((1, 2), [Q(a), Q(b)])
@@ -1145,6 +1195,10 @@ def history_protocol_rule(ctx, rid="R17.19"):
                         floor = Hc if floor is None else XArray(Hc.shape, [max(a, b) for a, b in zip(Hc.data, floor.data)])
                 elif op == "mesh-event":
                     I.call_function(fUpd, [mesh, "The mesh has been modified"], self_obj=obj)
+                elif op == "reactivate":
+                    # Set_Iter(-1) with the default resetAll=False (what Result(..., iter=k) and a roll-back before a retried
+                    # step do): the committed history stays what it is
+                    I.call_function(fSet, [-1], {}, self_obj=obj)
                 elif op == "restore":
                     cur["psi"] = val
                     I.call_function(fSet, [0], {"resetAll": True}, self_obj=obj)
@@ -1159,4 +1213,5 @@ def history_protocol_rule(ctx, rid="R17.19"):
     scenario("trial evaluations between commits", [("eval", V(4, 1)), ("save", None), ("eval", V(2, 5)), ("eval", V(1, 1)), ("eval", V(6, 0)), ("save", None), ("eval", V(0, 0)), ("save", None), ("eval", V(5, 2))])
     scenario("first step, nothing committed yet", [("eval", V(3, 3)), ("eval", V(1, 2)), ("save", None), ("eval", V(0, 5))])
     scenario("mesh moved between the solve and the commit", [("eval", V(4, 1)), ("save", None), ("eval", V(2, 5)), ("mesh-event", None), ("save", None), ("eval", V(1, 1))])
+    scenario("current iteration re-activated (Set_Iter(-1), resetAll left False) during an unloading", [("eval", V(4, 1)), ("save", None), ("eval", V(6, 7)), ("save", None), ("reactivate", None), ("eval", V(1, 1)), ("save", None), ("reactivate", None), ("eval", V(0, 9)), ("save", None), ("eval", V(2, 2))])
     scenario("restore of an earlier iteration, then a further step", [("eval", V(4, 1)), ("save", None), ("eval", V(6, 7)), ("save", None), ("restore", V(4, 1)), ("eval", V(1, 1)), ("save", None), ("eval", V(5, 0))])
